@@ -115,7 +115,7 @@ func vpMeshRebuild(handler, P int) {
 	}
 }
 
-func vpH_C19_rebuild_graft()     { vpMeshRebuild(0, 3) }
+func vpH_C19_rebuild_graft()     { vpMeshRebuild(0, 4) } // (P=4 so that "mesh already at Dhi=3" is inside)
 func vpH_C19_rebuild_prune()     { vpMeshRebuild(1, 3) }
 func vpH_C19_rebuild_join()      { vpMeshRebuild(2, 3) }
 func vpH_C19_rebuild_leave()     { vpMeshRebuild(3, 3) }
@@ -181,4 +181,42 @@ func vpH_C19_send_drop() {
 		vpDropPending() // (the announce retry goroutine is not part of this check)
 	}
 	vpCover(true, "ran")
+}
+
+// batch: messages published as a batch (the processLoop's sendMessageBatch case -> publishMessageBatch): each has exactly
+// one DELIVER_MESSAGE event, reaches the local subscription once and is queued to the topic peer once.
+func vpH_C19_deliver_batch() {
+	vpOpt("unwind", 24)
+	params := vpSmallParams()
+	n := vpNewNode("self", vpNodeCfg{router: "gossipsub", params: &params, tracer: true})
+	ps := n.ps
+	sub := &Subscription{topic: vpT0, ch: make(chan *Message, 4), ctx: ps.ctx}
+	ps.handleAddSubscription(&addSubReq{sub: sub, resp: make(chan *Subscription, 1)})
+	q := n.vpAddPeer("p0", GossipSubID_v11, true)
+	ps.handleIncomingRPC(vpSubRPC("p0", vpT0, true))
+	n.gs.mesh[vpT0]["p0"] = struct{}{}
+	vpDrain(q)
+	k := vpInt("batch_size", 1, 2)
+	ms := []*Message{vpMkMsg("self", "1", vpT0), vpMkMsg("self", "2", vpT0)}
+	for _, m := range ms {
+		m.ReceivedFrom = "self"
+		m.Local = true
+	}
+	for i := 0; i < 2; i++ {
+		if i < k {
+			vpAssert(ps.val.ValidateLocal(ms[i]) == nil, "a valid local publication is accepted")
+		}
+	}
+	n.tr.evts = nil
+	vpOffer(ps.sendMessageBatch, messageBatchAndPublishOptions{messages: ms[:k], opts: &BatchPublishOptions{Strategy: &RoundRobinMessageIDScheduler{}}})
+	n.loop()
+	vpAssert(n.tr.count(pb.TraceEvent_DELIVER_MESSAGE) == k, "every message of a published batch has exactly one DELIVER_MESSAGE event")
+	vpAssert(len(sub.ch) == k, "every message of the batch reaches the local subscription once")
+	sent := 0
+	for _, r := range vpDrain(q) {
+		sent += len(r.Publish)
+	}
+	vpAssert(sent == k, "every message of the batch is queued to the mesh peer once")
+	vpCover(k == 2, "two messages")
+	n.shutdown()
 }
